@@ -195,7 +195,7 @@ def C07(tier, seed):
 
 # --------------------------------------------------------------------------- Count-Min
 def C08(tier, seed):
-    hll_like("C08", tier, seed, ["C08"], "cm-record", [("MC_CountMin", "MC_CountMin.cfg")], None,
+    hll_like("C08", tier, seed, ["C08"], "cm-record", [("MC_CountMin", "MC_CountMin.cfg"), ("MC_Wide", "MC_Wide.cfg")], None,
              module="Trace_CountMin", family="CountMin", consts="CONSTANTS ",
              assumptions=["bucket indices are derived by harness/src/refhash.rs (per-row seed = murmur3(row as u64 LE, sketch seed).h1; bucket = h1 mod num_buckets)",
                           "the table is read from serialize() (16-byte preamble, total, then 8-byte little-endian counters)",
@@ -204,7 +204,9 @@ def C08(tier, seed):
                           "the clause on the fraction of items above truth + relative_error*total (a probabilistic statement) is not decided"],
              rule="MC: two 2x3 sketches, 4 items with colliding buckets, weights 0..2, all update/merge/halve/decay(1/2,2/3) sequences; "
                   "Trace: num_hashes 1..8 x num_buckets 3..512 x seeds {9001,0,2^63+..,42} x all eight counter types (weights within range), "
-                  "random update/merge/halve/decay/round-trip histories, whole table and every item's estimate at checkpoints, never-seen items too")
+                  "random update/merge/halve/decay/round-trip histories, whole table and every item's estimate at checkpoints, never-seen items too; "
+                  "u64 / i64 counters with weights 2^53+1 .. 2^62 on four 16-bit limbs (Wide.tla, model-checked against integers for base 4): update, merge, halve; "
+                  "merge offered other shapes and seeds (refused exactly then)")
 
 
 # --------------------------------------------------------------------------- Bloom
